@@ -11,7 +11,7 @@
    fresh, distinct and contain all new alternatives (spc_spec), extend keeps disjointness (extend_spec). *)
 From Coq Require Import List Arith NArith Bool Lia Permutation.
 From PrefVerif Require Import Lib.Val Lib.Contig Lib.SetPartitions Model.SP Model.ELPDP Model.Partition
-                              Model.PartitionAlgo Proofs.SP Proofs.ELPDP Proofs.Partition.
+                              Model.PartitionAlgo Proofs.SP Proofs.ELPDP Proofs.Partition Proofs.ELPComplete Proofs.ELPLevels.
 Import ListNotations.
 
 Definition E (l : list paxis) : list N := flat_map pa_elems l.
@@ -625,3 +625,107 @@ Lemma small_ok_3 : small_ok 1 3 = true /\ small_ok 2 3 = true /\ small_ok 3 1 = 
 Proof. repeat split; vm_cast_no_check (eq_refl true). Qed.
 Lemma small_ok_5 : small_ok 5 1 = true.
 Proof. vm_cast_no_check (eq_refl true). Qed.
+
+
+(* ============================================================================================== *)
+(* 9. COMPLETENESS / MINIMALITY of the mirror (with place_complete of Proofs/ELPComplete.v)        *)
+
+(* --- 9.1 membership in extend / spc through inductive characterisations ------------------------ *)
+
+Section ExtRel.
+Variable votes : list (list N).
+Variable lim : nat.
+
+Inductive ExtR : list paxis -> list paxis -> list (list N) -> list paxis -> Prop :=
+| ExtR_nil u d : ExtR u d [] (u ++ d)
+| ExtR_old u d p e res A A' :
+    In A u -> fst (place_t A p votes) = A' -> pa_eqb A' A = false ->
+    ExtR (filter (fun a => negb (pa_eqb a A)) u) (d ++ [A']) e res -> ExtR u d (p :: e) res
+| ExtR_new u d p e res A' :
+    length u + length d < lim -> fst (place_t pa_empty p votes) = A' -> pa_eqb A' pa_empty = false ->
+    ExtR u (d ++ [A']) e res -> ExtR u d (p :: e) res.
+
+Lemma ExtR_in_fold u d e res : ExtR u d e res -> forall queue, In (u, d) queue ->
+  In res (map (fun q : qstate => fst q ++ snd q) (fold_left (fun queue alt => ext_piece votes lim alt queue) e queue)).
+Proof.
+  induction 1 as [u d|u d p e res A A' HA Hpl Hne _ IH|u d p e res A' Hlen Hpl Hne _ IH]; intros queue Hq.
+  - simpl. apply in_map_iff. exists (u, d). auto.
+  - cbn [fold_left]. apply IH. unfold ext_piece. apply in_flat_map. exists (u, d). split; [assumption|].
+    apply in_or_app. left. apply in_flat_map. exists A. split; [assumption|]. rewrite Hpl, Hne. now left.
+  - cbn [fold_left]. apply IH. unfold ext_piece. apply in_flat_map. exists (u, d). split; [assumption|].
+    apply in_or_app. right. apply Nat.ltb_lt in Hlen. rewrite Hlen, Hpl, Hne. now left.
+Qed.
+
+Lemma extend_complete axes e res : ExtR axes [] e res -> In res (extend axes e votes lim).
+Proof. intros H. unfold extend. apply (ExtR_in_fold _ _ _ _ H). now left. Qed.
+End ExtRel.
+
+Inductive Canon : list N -> list N -> list (list N) -> Prop :=
+| Canon_nil later : Canon [] later []
+| Canon_single h rest later e : Canon rest later e -> Canon (h :: rest) later ([h] :: e)
+| Canon_pair h y rest later e : In y (rest ++ later) ->
+    Canon (removeN (Some y) rest) (removeN (Some y) later) e -> Canon (h :: rest) later ([h; y] :: e).
+
+Lemma removeN_length_ge y (l : list N) : NoDup l -> length l <= S (length (removeN (Some y) l)).
+Proof.
+  induction l as [|a l IH]; intros Hnd; simpl; [lia|]. inversion Hnd as [|? ? Ha Hl]; subst.
+  destruct (N.eqb a y) eqn:Ey; simpl.
+  - apply N.eqb_eq in Ey. subst a.
+    assert (E : filter (fun i => negb (N.eqb i y)) l = l).
+    { apply filter_all_true. intros x Hx. apply negb_true_iff, N.eqb_neq. intros ->. contradiction. }
+    rewrite E. lia.
+  - specialize (IH Hl). simpl in IH. lia.
+Qed.
+
+Lemma NoDup_removeN_app p (l1 l2 : list N) : NoDup (l1 ++ l2) -> NoDup (removeN p l1 ++ removeN p l2).
+Proof.
+  intros H. apply NoDup_app_iff in H. destruct H as (N1 & N2 & N3). apply NoDup_app_iff.
+  repeat split; [now apply removeN_NoDup|now apply removeN_NoDup|].
+  intros a Ha Hb. apply (N3 a); [now apply removeN_incl in Ha|now apply removeN_incl in Hb].
+Qed.
+
+Lemma Canon_len items later e : NoDup (items ++ later) -> Canon items later e -> length items <= 2 * length e.
+Proof.
+  intros Hnd H. induction H as [later|h rest later e _ IH|h y rest later e _ _ IH]; simpl; [lia| |].
+  - inversion Hnd; subst. specialize (IH H2). lia.
+  - inversion Hnd as [|? ? _ Hnd']; subst. specialize (IH (NoDup_removeN_app _ _ _ Hnd')).
+    pose proof (removeN_length_ge y rest (NoDup_app_l _ _ Hnd')). lia.
+Qed.
+
+Lemma spc_complete : forall fuel items later lim size e,
+  NoDup (items ++ later) -> Canon items later e -> length items <= fuel -> size + length e <= lim ->
+  In e (spc fuel items later lim size).
+Proof.
+  induction fuel as [|f IH]; intros items later lim size e Hnd Hc Hlen Hlim.
+  - destruct items; [|simpl in Hlen; lia]. inversion Hc; subst. now left.
+  - pose proof (Canon_len _ _ _ Hnd Hc) as Hl2.
+    inversion Hc as [later'|h rest later' e' Hc'|h y rest later' e' Hy Hc']; subst.
+    + now left.
+    + cbn [spc].
+      assert (G : (size + (length (h :: rest) + 1) / 2 <=? lim) = true).
+      { apply Nat.leb_le. assert ((length (h :: rest) + 1) / 2 < S (length ([h] :: e'))) by (apply Nat.div_lt_upper_bound; lia).
+        lia. }
+      rewrite G. apply in_flat_map. exists None. split; [apply in_or_app; right; now left|].
+      apply in_map. inversion Hnd; subst. apply IH; auto; simpl in *; lia.
+    + cbn [spc].
+      assert (G : (size + (length (h :: rest) + 1) / 2 <=? lim) = true).
+      { apply Nat.leb_le. assert ((length (h :: rest) + 1) / 2 < S (length ([h; y] :: e'))) by (apply Nat.div_lt_upper_bound; lia).
+        lia. }
+      rewrite G. apply in_flat_map. exists (Some y). split.
+      * apply in_app_or in Hy. apply in_or_app. destruct Hy as [Hy|Hy]; [left; now apply in_map|].
+        right. right. now apply in_map.
+      * apply in_map. inversion Hnd as [|? ? _ Hnd']; subst. apply IH.
+        -- now apply NoDup_removeN_app.
+        -- assumption.
+        -- pose proof (removeN_length (Some y) rest). simpl in Hlen. lia.
+        -- simpl in Hlim. lia.
+Qed.
+
+(* a distinguished element of a fold that establishes G, all other steps preserving G *)
+Lemma fold_left_hit {S T} (f : S -> T -> S) (G : S -> Prop) l x s0 :
+  In x l -> (forall s, G (f s x)) -> (forall s y, G s -> G (f s y)) -> G (fold_left f l s0).
+Proof.
+  revert s0. induction l as [|y l IH]; intros s0 Hx Hhit Hpres; [contradiction|]. simpl.
+  destruct Hx as [->|Hx]; [|now apply IH].
+  apply fold_left_inv; [intros z _ s' Hs'; now apply Hpres|apply Hhit].
+Qed.
